@@ -80,7 +80,7 @@ def classify_escape(point, src, exc):
     if name == "AttributeError" and where == "is_adjacent" and "?" in src and "'tuple' object has no attribute" in str(exc):
         return "F03e"
     if isinstance(exc, RecursionError) and max(gen_py.nesting_depth(src), _crude_depth(src)) >= 22:
-        return "F01g"
+        return "F03g"  # (repaired: reported as a SyntaxError now; a hit is an alarm)
     return None
 
 
